@@ -33,12 +33,19 @@
 //	                       a Retry; the token is taken from the Retry packet      => ok tok=<hex> rscid=<hex> | now=<ns>
 //	dinitial <inst> <hex|-|@tid> <addr> <wantsRetry>   like `initial`, at the default-key instance (MaxTokenAge default,
 //	                       HandshakeIdleTimeout 5s)                               => proceed av=<0|1> | retry | drop | now=<ns>
+//	reuse <script> <hex|-|@tid> <addr> <handshakeIdle_ns>
+//	      ONE quic.Transport lives through <script> (comma separated): k<kid> set TokenGeneratorKey, a<ns> set MaxTokenAge,
+//	      v<0|1> set VerifySourceAddress (always true / nil), W = WriteTo, R = ReadNonQUICPacket with a cancelled context
+//	      (both initialise the Transport), L = Listen and close that listener again; THEN Listen, and the Initial with this
+//	      token is shown to that listener: it must decide by the configuration the Transport has at THAT Listen
+//	      => proceed av=<0|1> | retry | drop | now=<ns>
 //	sleep <ns>                                                                  => ok | now=<ns>
 //
 // addr: u:<iphex>:<port>:<zonehex> (*net.UDPAddr) or o:<hex of String()> (another net.Addr); "-" = empty hex.
 package token
 
 import (
+	"context"
 	"encoding/asn1"
 	"encoding/hex"
 	"fmt"
@@ -214,6 +221,9 @@ func (rn *runner) genOp(r *vh.Rand, i int) string {
 	if r.Chance(6) {
 		return rn.genInstanceScript(r)
 	}
+	if r.Chance(5) {
+		return rn.genReuseScript(r)
+	}
 	if len(rn.toks) == 0 || r.Chance(12) {
 		return rn.genIssue(r)
 	}
@@ -327,6 +337,68 @@ func (rn *runner) genInstanceScript(r *vh.Rand) string {
 	return fmt.Sprintf("dkey %d", a)
 }
 
+// a Transport that is configured, used, RE-configured and then listened on: tokens whose age straddles the lifetime that is
+// configured now (the earlier one is longer, shorter or the default), tokens under the key configured now / configured
+// before, Retry policy switched on or off in between
+func (rn *runner) genReuseScript(r *vh.Rand) string {
+	addr := genAddr(r)
+	id := rn.nextID
+	rn.nextID++
+	kid := r.Intn(2)
+	idle := idles[r.Intn(len(idles))]
+	wait := []int64{int64(20 * time.Millisecond), int64(time.Second), int64(2 * time.Hour), int64(25 * time.Hour)}[r.Pick(35, 35, 20, 10)]
+	retryTok := r.Chance(25)
+	if retryTok {
+		wait = []int64{2*idle - 1, 2 * idle, 2*idle + 1, idle}[r.Intn(4)]
+	}
+	uses := []string{"W", "R", "L", "L,W", "R,L"}
+	ages := []int64{0, wait - 1, wait, wait + 1, wait / 2, 2 * wait, int64(24 * time.Hour), int64(time.Hour)}
+	mk := func() string {
+		var st []string
+		first := true
+		for n := 1 + r.Intn(3); n > 0; n-- {
+			k := kid
+			if r.Chance(25) {
+				k = (kid + 1 + r.Intn(2)) % 3
+			}
+			if !(first && r.Chance(20)) { // sometimes the first use happens before any key was configured
+				st = append(st, fmt.Sprintf("k%d", k))
+			}
+			if !(first && r.Chance(30)) {
+				st = append(st, fmt.Sprintf("a%d", ages[r.Intn(len(ages))]))
+			}
+			if r.Chance(50) {
+				st = append(st, fmt.Sprintf("v%d", r.Intn(2)))
+			}
+			st = append(st, uses[r.Intn(len(uses))])
+			first = false
+		}
+		// the configuration that counts
+		if r.Chance(85) {
+			st = append(st, fmt.Sprintf("k%d", kid))
+		}
+		if r.Chance(85) {
+			st = append(st, fmt.Sprintf("a%d", ages[r.Intn(len(ages))]))
+		}
+		if r.Chance(50) {
+			st = append(st, fmt.Sprintf("v%d", r.Intn(2)))
+		}
+		return strings.Join(st, ",")
+	}
+	present := addr
+	if r.Chance(15) {
+		present = otherAddr(r, addr)
+	}
+	rn.queue = append(rn.queue, fmt.Sprintf("sleep %d", wait))
+	for n := 2 + r.Intn(3); n > 0; n-- {
+		rn.queue = append(rn.queue, fmt.Sprintf("reuse %s @%d %s %d", mk(), id, present, idle))
+	}
+	if retryTok {
+		return fmt.Sprintf("issue %d %d R %s %s %s", id, kid, addr, hx(r.Bytes(8)), hx(r.Bytes(4)))
+	}
+	return fmt.Sprintf("issue %d %d N %s %d", id, kid, addr, r.Range(0, 500_000))
+}
+
 func (rn *runner) genIssue(r *vh.Rand) string {
 	id := rn.nextID
 	rn.nextID++
@@ -402,7 +474,6 @@ func (rn *runner) Exec(op string) string {
 	if len(f) == 0 {
 		return "bad-op"
 	}
-	kidOf := func(s string) (int, bool) { k, err := strconv.Atoi(s); return k, err == nil && k >= 0 && k <= 2 }
 	switch f[0] {
 	case "issue":
 		if len(f) < 6 {
@@ -533,6 +604,19 @@ func (rn *runner) Exec(op string) string {
 			return "skip"
 		}
 		return rn.realInitial(kid, tokb, addr, f[4] == "1", time.Duration(vh.Atoi64(f[5])), time.Duration(vh.Atoi64(f[6]))) + now()
+	case "reuse":
+		if len(f) != 5 {
+			return "bad-op"
+		}
+		addr := parseAddr(f[3])
+		tokb, ok2 := rn.tokenArg(f[2])
+		if addr == nil || !validScript(f[1]) {
+			return "bad-op"
+		}
+		if !ok2 || rn.mayPanic(hx(tokb)) {
+			return "skip"
+		}
+		return rn.reuse(f[1], tokb, addr, time.Duration(vh.Atoi64(f[4]))) + now()
 	case "dkey":
 		if len(f) != 2 {
 			return "bad-op"
@@ -833,6 +917,121 @@ func (rn *runner) realInitialOpt(kid int, tok []byte, from net.Addr, wantsRetry 
 	synctest.Wait()
 	tr.Close()
 	sc.Close()
+	synctest.Wait()
+	return res
+}
+
+func kidOf(s string) (int, bool) { k, err := strconv.Atoi(s); return k, err == nil && k >= 0 && k <= 2 }
+
+func validScript(script string) bool {
+	for _, st := range strings.Split(script, ",") {
+		if st == "" {
+			return false
+		}
+		switch st[0] {
+		case 'k':
+			if _, ok := kidOf(st[1:]); !ok {
+				return false
+			}
+		case 'a':
+			if _, err := strconv.ParseInt(st[1:], 10, 64); err != nil {
+				return false
+			}
+		case 'v':
+			if st != "v0" && st != "v1" {
+				return false
+			}
+		case 'W', 'R', 'L':
+			if len(st) != 1 {
+				return false
+			}
+		default:
+			return false
+		}
+	}
+	return true
+}
+
+// reuse: one Transport is configured, used, reconfigured, ... and finally listened on; the Initial goes to the LAST listener
+func (rn *runner) reuse(script string, tok []byte, from net.Addr, idle time.Duration) string {
+	rt := &capRouter{}
+	sc := simnet.NewSimConn(srvAddr, rt)
+	tr := &quic.Transport{Conn: sc}
+	var mu sync.Mutex
+	called, verified := false, false
+	listen := func() (*quic.Listener, error) {
+		return tr.Listen(&tls.Config{NextProtos: []string{"verif"}}, &quic.Config{
+			HandshakeIdleTimeout: idle,
+			GetConfigForClient: func(ci *quic.ClientInfo) (*quic.Config, error) {
+				mu.Lock()
+				called, verified = true, ci.AddrVerified
+				mu.Unlock()
+				return nil, fmt.Errorf("verif: refuse")
+			},
+		})
+	}
+	defer func() {
+		tr.Close()
+		sc.Close()
+		synctest.Wait()
+	}()
+	for _, st := range strings.Split(script, ",") {
+		switch st[0] {
+		case 'k':
+			kid, _ := kidOf(st[1:])
+			key := rn.keys[kid]
+			tr.TokenGeneratorKey = &key
+		case 'a':
+			tr.MaxTokenAge = time.Duration(vh.Atoi64(st[1:]))
+		case 'v':
+			tr.VerifySourceAddress = nil
+			if st == "v1" {
+				tr.VerifySourceAddress = func(net.Addr) bool { return true }
+			}
+		case 'W':
+			tr.WriteTo([]byte{0x00, 0x01}, &net.UDPAddr{IP: net.IPv4(1, 0, 0, 9), Port: 9})
+		case 'R':
+			ctx, cancel := context.WithCancel(context.Background())
+			cancel()
+			tr.ReadNonQUICPacket(ctx, make([]byte, 16))
+		case 'L':
+			ln, err := listen()
+			if err != nil {
+				return "E:listen"
+			}
+			go ln.Close()
+			synctest.Wait()
+		}
+	}
+	ln, err := listen()
+	if err != nil {
+		return "E:listen"
+	}
+	raw := initialDatagram(tok)
+	if raw == nil {
+		return "E:hdr"
+	}
+	rt.mu.Lock()
+	rt.out = nil
+	rt.mu.Unlock()
+	rt.inner.SendPacket(simnet.Packet{To: srvAddr, From: from, Data: raw})
+	synctest.Wait()
+	res := "drop"
+	mu.Lock()
+	if called {
+		res = fmt.Sprintf("proceed av=%d", map[bool]int{false: 0, true: 1}[verified])
+	}
+	mu.Unlock()
+	rt.mu.Lock()
+	for _, d := range rt.out {
+		if len(d) > 0 && wire.IsLongHeaderPacket(d[0]) {
+			if h, _, _, err := wire.ParsePacket(d); err == nil && h.Type == protocol.PacketTypeRetry && res == "drop" {
+				res = "retry"
+			}
+		}
+	}
+	rt.mu.Unlock()
+	go ln.Close()
 	synctest.Wait()
 	return res
 }
